@@ -22,7 +22,19 @@ type verifier struct {
 }
 
 func (v *verifier) violate(class string, img imgfs.Image, format string, args ...interface{}) {
-	if v.live != "" {
+	if fs := v.d.fault; fs != nil {
+		// iofault history: everything observed after the injected fault names the fault and the operation's answer
+		if fired, at := fs.firedNow(); fired && (v.live != "" || img.Index >= at) {
+			// the phase of a read of the running store is part of the message (img.Label), not of the class
+			where := "running-store"
+			if v.live == "" {
+				where = "crash-image"
+			}
+			class = "C01/" + fs.tag() + "/" + where + "/" + strings.TrimPrefix(class, "C01/")
+		} else if v.live != "" {
+			class = "C01/" + v.live + "/" + strings.TrimPrefix(class, "C01/")
+		}
+	} else if v.live != "" {
 		class = "C01/" + v.live + "/" + strings.TrimPrefix(class, "C01/")
 	}
 	v.d.mu.Lock()
@@ -80,6 +92,10 @@ func (v *verifier) expect(k int) (map[string]*famExpect, bool) {
 			e.mayExist = true
 		case "flush", "flush-empty":
 			e := get(op.Family)
+			if done && op.Err != "" {
+				// the flush answered with an error (only iofault histories have those): nothing of it may be visible
+				continue
+			}
 			if done {
 				for key, toks := range op.Tokens {
 					m := e.must[key]
